@@ -37,8 +37,19 @@ import (
 
 const ModPath = "example.com/m"
 
+// VerStr names version v. Each version string extends the previous one with a dot and a
+// number (v0.1.0-alpha, v0.1.0-alpha.1, v0.1.0-alpha.1.1, ...): valid, distinct versions whose
+// cache file names share prefixes, so that nothing keyed by a version may work on prefixes.
+func VerStr(v int) string {
+	s := "v0.1.0-alpha"
+	for i := 1; i < v; i++ {
+		s += ".1"
+	}
+	return s
+}
+
 func Version(v int) module.Version {
-	return module.MustNewVersion(ModPath+"@v0", fmt.Sprintf("v0.0.%d", v))
+	return module.MustNewVersion(ModPath+"@v0", VerStr(v))
 }
 
 // Content is the deterministic registry content: version -> file -> bytes.
@@ -65,7 +76,7 @@ func Registry(nv, nf int) (ociregistry.Interface, map[int][]byte, map[int][]stri
 	mfs := fstest.MapFS{}
 	for v, files := range content {
 		for name, data := range files {
-			mfs[fmt.Sprintf("example.com_m_v0.0.%d/%s", v, name)] = &fstest.MapFile{Data: data, Mode: 0o644}
+			mfs[fmt.Sprintf("example.com_m_%s/%s", VerStr(v), name)] = &fstest.MapFile{Data: data, Mode: 0o644}
 		}
 	}
 	reg := ocimem.New()
@@ -435,7 +446,19 @@ func DiskProjection(cacheDir string, nv, nf int, zips map[int][]byte, order map[
 	dl := filepath.Join(cacheDir, "mod", "download", "example.com", "m", "@v")
 	ents, _ := os.ReadDir(dl)
 	for v := 1; v <= nv; v++ {
-		ver := fmt.Sprintf("v0.0.%d", v)
+		ver := VerStr(v)
+		// a file belongs to the version with the longest matching name
+		owned := func(n string) bool {
+			if !strings.HasPrefix(n, ver+".") {
+				return false
+			}
+			for w := 1; w <= nv; w++ {
+				if o := VerStr(w); len(o) > len(ver) && strings.HasPrefix(n, o+".") {
+					return false
+				}
+			}
+			return true
+		}
 		rec := map[string]any{"zip": "absent", "mod": "absent", "partial": false, "dirx": false, "zstale": false, "mstale": false, "junk": false}
 		classify := func(path string, want []byte) string {
 			b, err := os.ReadFile(path)
@@ -457,6 +480,9 @@ func DiskProjection(cacheDir string, nv, nf int, zips map[int][]byte, order map[
 		}
 		for _, e := range ents {
 			n := e.Name()
+			if !owned(n) {
+				continue
+			}
 			switch {
 			case strings.HasPrefix(n, ver+".zip") && strings.HasSuffix(n, ".tmp"):
 				rec["zstale"] = true
@@ -508,7 +534,7 @@ func DiskProjection(cacheDir string, nv, nf int, zips map[int][]byte, order map[
 	ex, _ := os.ReadDir(filepath.Join(cacheDir, "mod", "extract", "example.com"))
 	known := map[string]bool{}
 	for v := 1; v <= nv; v++ {
-		known[fmt.Sprintf("m@v0.0.%d", v)] = true
+		known["m@"+VerStr(v)] = true
 	}
 	for _, e := range ex {
 		if !known[e.Name()] && len(out) > 0 {
